@@ -17,7 +17,7 @@ META = {
 
 DEST = ['absent', 'file', 'dir', 'link-file', 'link-dir', 'dangling', 'empty-dir']
 SELECT = ['single', 'other-then-colliding', 'colliding-then-other', 'range', 'same-path-twice-range', 'same-path-twice-list',
-          'single-path-through-link-dotdot', 'single-path-through-missing-dir-dotdot']
+          'single-path-through-link-dotdot', 'single-path-through-missing-dir-dotdot', 'single-name-with-a-literal-plus']
 NSEL = len(SELECT)
 LAYOUTS = ['home', 'top', 'alt']
 
@@ -40,13 +40,19 @@ def scenario(dest, kind, overwrite, select, layout):
         nodes += [W.d(arch + '/2024'), W.l(base + '/cur', arch + '/2024', 705)]
         shown = base + '/cur/../x'
         path = arch + '/x'
+    literal = None
+    if SELECT[select] == 'single-name-with-a-literal-plus':
+        # Path=.../x+y written with an unescaped '+' (other implementations do): '+' stands for itself
+        path = base + '/x+y'
+        shown = path
+        literal = pv(path)
     if SELECT[select] == 'single-path-through-missing-dir-dotdot':
         # Path=<base>/gone/../x where <base>/gone does not exist: the kernel cannot resolve the spelling (lexists is
         # False) although <base>/x, which it designates once the parent has been created, does exist
         shown = base + '/gone/../x'
     if lay == 'top':
         nodes.append(W.d('/v/.Trash', 0o1777))
-    nodes += K.trashed(td, 'x', K.quote(pv(shown)), '2020-01-02T00:00:00', K.KINDS[kind], 2000)
+    nodes += K.trashed(td, 'x', literal if literal is not None else K.quote(pv(shown)), '2020-01-02T00:00:00', K.KINDS[kind], 2000)
     nodes += K.trashed(td, 'other', K.quote(pv(other)), '2020-01-01T00:00:00', 'file', 2100)
     if SELECT[select].startswith('same-path-twice'):
         # a second generation of the very same original path, trashed later
@@ -68,7 +74,7 @@ def scenario(dest, kind, overwrite, select, layout):
     # listing sorted by date: index 0 = other (01-01), index 1 = x (01-02)
     reply = {'single': '1', 'other-then-colliding': '0,1', 'colliding-then-other': '1,0', 'range': '0-1',
              'same-path-twice-range': '1-2', 'same-path-twice-list': '2,1', 'single-path-through-link-dotdot': '1',
-             'single-path-through-missing-dir-dotdot': '1'}[SELECT[select]]
+             'single-path-through-missing-dir-dotdot': '1', 'single-name-with-a-literal-plus': '1'}[SELECT[select]]
     args = ['--overwrite'] if overwrite else []
     steps = [{'snap': '/'}, C('restore', args, scen.env(), stdin=[reply], cwd=base), {'snap': '/'}]
     return world, steps, td, path, other, shown
@@ -95,7 +101,7 @@ def _case(dest, kind, overwrite, select, layout, envx=0):
         lst = K.restore_listing(r['out'])
         twice = SELECT[select].startswith('same-path-twice')
         if [p for (_, _, p) in lst] != ([other, path, path] if twice else [other, shown]):
-            return rt.fail('C06:harness-listing', 'unexpected listing %r' % (r['out'],))
+            return rt.fail('C06:offered-path-is-not-the-recorded-one:' + label, 'trash-restore lists %r' % (r['out'],))
         if twice and DEST[dest] == 'absent' and not overwrite:
             # the first selected generation is restored, the second one must be refused: the destination exists by then
             first, second = ('x', 'x_1') if SELECT[select].endswith('range') else ('x_1', 'x')
@@ -184,4 +190,4 @@ def obligations(tier):
                bounds='every environment variable the run consults beyond the documented ones (discovered by a probe run) set to 0 / no; 7 destination kinds x 6 entry kinds x 3 selections, no --overwrite'),
             CH('W_dest_kind_overwrite_select_layout', MOD, 'w_main', timeout=900, partitions=list(range(7)),
                engine='W', regime='selector', encodes=K.RESTORE_FUNCS, stubs=K.STUBS,
-               bounds='7 destination kinds x 6 entry kinds x overwrite x 8 selections (incl. a Path through a missing directory and dot-dot, two generations of the same path in one selection, and a Path spelled through a symlinked directory and dot-dot) x 3 layouts')]
+               bounds='7 destination kinds x 6 entry kinds x overwrite x 9 selections (incl. a name with a literal +, a Path through a missing directory and dot-dot, two generations of the same path in one selection, and a Path spelled through a symlinked directory and dot-dot) x 3 layouts')]
